@@ -307,6 +307,21 @@ func dumpType(fc *validate.FieldConstraints) string {
 			}
 		}
 		return fmt.Sprintf("t=rep(min=%s,max=%s,uniq=%s,items=%s)", dumpOptU(r.MinItems), dumpOptU(r.MaxItems), u, items)
+	case *validate.FieldConstraints_Map:
+		r := t.Map
+		values := "~"
+		if r.Values != nil {
+			if r.Values.Required != nil || r.Values.Ignore != nil || len(r.Values.Cel) > 0 {
+				values = "other"
+			} else {
+				values = "(" + dumpType(r.Values) + ")"
+			}
+		}
+		s := fmt.Sprintf("t=map(min=%s,max=%s,values=%s)", dumpOptU(r.MinPairs), dumpOptU(r.MaxPairs), values)
+		if r.Keys != nil {
+			s += "+other"
+		}
+		return s
 	default:
 		return fmt.Sprintf("t=other(%T)", t)
 	}
